@@ -57,3 +57,42 @@ Definition CFOrientation_set_orientation (self_orientation : dictD) (self_graph_
   PyOk (self_out_degree, self_in_degree, self_orientation, self_is_full, self_is_full_checked)
   else
   PyOk (self_out_degree, self_in_degree, self_orientation, self_is_full, self_is_full_checked) end end end end end end end end.
+
+(* chipfiring/CFOrientation.py :: CFOrientation.check_fullness   reads ['self_is_full', 'self_is_full_checked', 'self_graph_vertices', 'self_graph_graph', 'self_orientation'], writes ['self_is_full', 'self_is_full_checked'], may raise *)
+Definition CFOrientation_check_fullness (self_is_full : bool) (self_is_full_checked : bool) (self_graph_vertices : list nat) (self_graph_graph : dictD) (self_orientation : dictD) (set_order : list nat -> list nat) : pyres (bool * bool) (bool * (bool * bool)) :=
+  match fold_left (fun acc_ v1 => match acc_ with PyExn e_ => PyExn e_ | PyOk (Some r_, (self_is_full, self_is_full_checked)) => PyOk (Some r_, (self_is_full, self_is_full_checked)) | PyOk (None, (self_is_full, self_is_full_checked)) => 
+  match d_find v1 self_graph_graph with None => PyExn (self_is_full, self_is_full_checked) | Some t1_ =>
+  match fold_left (fun acc_ v2 => match acc_ with PyExn e_ => PyExn e_ | PyOk (Some r_, (self_is_full, self_is_full_checked)) => PyOk (Some r_, (self_is_full, self_is_full_checked)) | PyOk (None, (self_is_full, self_is_full_checked)) => 
+  if (Nat.ltb v1 v2) then
+  match d_find v1 self_orientation with None => PyExn (self_is_full, self_is_full_checked) | Some t2_ =>
+  match d_find v2 t2_ with None => PyExn (self_is_full, self_is_full_checked) | Some t3_ =>
+  if (t3_ =? 0) then
+  let self_is_full := false in
+  let self_is_full_checked := true in
+  PyOk (Some (false), (self_is_full, self_is_full_checked))
+  else
+  PyOk (None, (self_is_full, self_is_full_checked)) end end
+  else
+  PyOk (None, (self_is_full, self_is_full_checked)) end) (d_keys t1_) (PyOk (None, (self_is_full, self_is_full_checked))) with PyExn e_ => PyExn e_ | PyOk (Some r_, (self_is_full, self_is_full_checked)) => PyOk (Some r_, (self_is_full, self_is_full_checked)) | PyOk (None, (self_is_full, self_is_full_checked)) =>
+  PyOk (None, (self_is_full, self_is_full_checked)) end end end) (set_order self_graph_vertices) (PyOk (None, (self_is_full, self_is_full_checked))) with PyExn e_ => PyExn e_ | PyOk (Some r_, (self_is_full, self_is_full_checked)) => PyOk (r_, (self_is_full, self_is_full_checked)) | PyOk (None, (self_is_full, self_is_full_checked)) =>
+  let self_is_full := true in
+  let self_is_full_checked := true in
+  PyOk (true, (self_is_full, self_is_full_checked)) end.
+
+(* chipfiring/CFOrientation.py :: CFOrientation.get_in_degree   reads ['self_graph_graph', 'self_in_degree'], writes [], may raise *)
+Definition CFOrientation_get_in_degree (self_graph_graph : dictD) (self_in_degree : dictZ) (vertex_name : nat) : pyres (unit) Z :=
+  let vertex := vertex_name in
+  if (negb (d_mem vertex self_graph_graph)) then
+  PyExn tt
+  else
+  match d_find vertex self_in_degree with None => PyExn tt | Some t1_ =>
+  PyOk (t1_) end.
+
+(* chipfiring/CFOrientation.py :: CFOrientation.get_out_degree   reads ['self_graph_graph', 'self_out_degree'], writes [], may raise *)
+Definition CFOrientation_get_out_degree (self_graph_graph : dictD) (self_out_degree : dictZ) (vertex_name : nat) : pyres (unit) Z :=
+  let vertex := vertex_name in
+  if (negb (d_mem vertex self_graph_graph)) then
+  PyExn tt
+  else
+  match d_find vertex self_out_degree with None => PyExn tt | Some t1_ =>
+  PyOk (t1_) end.
